@@ -19,5 +19,7 @@ PROPERTY = {
 
 
 def check(run):
+    from checks.main import reflection_bounded
+    reflection_bounded(run)
     run.verify_functions([R + '__recognize_user_class'] + LOADER + [
         'yatiml/representers.py::Representer.__sweeten'])
